@@ -145,7 +145,7 @@ def _cells_child(shape: Shape, hist: List[Dict[str, Any]], root: str, env: Dict[
             continue
         prog = rec["prog"]
         for v in shape.vars:
-            src = "%s = %s\n" % (v, mat.var_value_src(shape, v, prog["vval"][v]))
+            src = "%s = %s\n" % (mat.pyname(shape, v), mat.var_value_src(shape, v, prog["vval"][v]))
             if cur.get("var:" + v) != src:
                 inpl = mat.var_inplace_stmt(shape, v, prog["vval"][v])
                 run((inpl + "\n") if (inpl and ("var:" + v) in cur) else src)
